@@ -130,4 +130,43 @@ KnownClasses(s, op) ==
 
 \* the switches that reproduce class k in the impl-shaped layer
 ImplViewFor(s, k) == ImplView(s, k = "png.avg", k = "decodeparms.array", FALSE)
+
+-----------------------------------------------------------------------------
+(* Summarised contents.  Losslessness and decode correctness must not depend on the size or   *)
+(* the compressibility of the data (64 KiB of one value deflates about 1000:1).  For large      *)
+(* contents the harness logs, instead of the bytes, a summary                                   *)
+(*     [len, dig (SHA-256), runs (the first runs as <<byte, count>>), nruns]                    *)
+(* and the declarative contract is stated on summaries: two byte strings are the same iff       *)
+(* their summaries are.  A summarised stream state is                                            *)
+(*     [filters, form, length, c (summary of the content), allows,                              *)
+(*      orc |-> [has, s]  what independent decoders (Python zlib / base64.a85decode, run by the  *)
+(*                        check script on the logged encoded bytes) obtain from the content]     *)
+
+SameBytes(a, b) == a.len = b.len /\ a.dig = b.dig /\ a.runs = b.runs /\ a.nruns = b.nruns
+
+LengthOKS(s) == s.length = s.c.len
+
+\* only filters without parameters occur in summarised states
+DecodableS(s) == s.filters = <<>> \/ (s.form = "none" /\ (\A i \in 1..Len(s.filters) : s.filters[i] \in Known) /\ s.orc.has)
+
+\* summary of what a conforming reader obtains (meaningful when DecodableS)
+ViewS(s) == IF s.filters = <<>> THEN s.c ELSE s.orc.s
+
+SetPlainOKS(pre, b, post) == SameBytes(post.c, b) /\ LengthOKS(post) /\ post.filters = <<>>
+
+CompressOKS(pre, post) ==
+    /\ LengthOKS(post)
+    /\ post.c.len <= pre.c.len
+    /\ DecodableS(pre) => (DecodableS(post) /\ SameBytes(ViewS(post), ViewS(pre)))
+
+DecompressOKS(pre, post) ==
+    /\ LengthOKS(post)
+    /\ DecodableS(pre) => (DecodableS(post) /\ SameBytes(ViewS(post), ViewS(pre)))
+    /\ (pre.filters # <<>> /\ DecodableS(pre)) => (post.filters = <<>> /\ SameBytes(post.c, ViewS(pre)))
+
+\* a logged decode result [ok, s] of the stream (decompressed_content / get_plain_content)
+DecodeAgreesS(s, r) == (s.filters # <<>> /\ DecodableS(s)) => (r.ok /\ SameBytes(r.s, ViewS(s)))
+
+\* impl-shaped: the filter is added iff the compressed form is more than 19 bytes shorter
+ImplCompressAddsS(pre, post) == pre.filters = <<>> /\ post.c.len + 19 < pre.c.len
 =============================================================================
